@@ -52,7 +52,7 @@ def _run_config(d, prog, cfg, store, call, idx):
         json.dump(spec, f)
     e = dict(os.environ)
     e["PYTHONHASHSEED"] = str(cfg["seed"])
-    e["PYTHONPATH"] = ROOT + os.pathsep + e.get("PYTHONPATH", "")
+    e["PYTHONPATH"] = (e["VERIF_REPO"] + os.pathsep if e.get("VERIF_REPO") else "") + ROOT + os.pathsep + e.get("PYTHONPATH", "")
     e.pop("VERIF_RT_IDENTITY", None)
     r = subprocess.run([PY, "-m", "vlib.progrun", sf], env=e, cwd=ROOT, capture_output=True, text=True, timeout=300)
     if "@@RESULT@@" not in r.stdout:
